@@ -268,7 +268,7 @@ func (ex *Exec) jPath(st *State, v *Term, keys Value) *Term {
 				continue
 			}
 		}
-		v = jGet(v, k)
+		v = ex.known(jGet(v, k))
 	}
 	return v
 }
